@@ -146,6 +146,46 @@ Lemma qcode_unfold x s :
                     (fof_Z prec emax Hp Hpe 127)).
 Proof. reflexivity. Qed.
 
+(* round - clamp - cast on any finite float: the exact integer clampZ(round(q)), stored without wrap *)
+Lemma clamp_chain (q : fl) : is_finite q = true ->
+  cast_wrap prec emax Hp Hpe true
+    (fmin prec emax (fmax prec emax (Bnearbyint mode_NE q) (fof_Z prec emax Hp Hpe (-128)))
+                    (fof_Z prec emax Hp Hpe 127))
+  = fof_Z prec emax Hp Hpe (clampZ (-128) 127 (ZnearestE (B2R q))).
+Proof.
+  intros FQ.
+  pose proof (fof_Z_exact prec emax Hp Hpe Hprec8 Hemax9 (-128) ltac:(simpl; lia)) as [Hlo Flo].
+  pose proof (fof_Z_exact prec emax Hp Hpe Hprec8 Hemax9 127 ltac:(simpl; lia)) as [Hhi Fhi].
+  pose proof (Bnearbyint_correct prec emax Hpe mode_NE q) as (HR & FR & _).
+  cbn [round_mode] in HR. rewrite round_FIX_IZR in HR. rewrite FQ in FR.
+  destruct (fmax_finite prec emax (Bnearbyint mode_NE q) _ FR Flo) as [HM1 FM1].
+  destruct (fmin_finite prec emax _ _ FM1 Fhi) as [HM2 FM2].
+  rewrite HM1, HR, Hlo, Hhi in HM2. rewrite clamp_IZR in HM2.
+  apply (cast_int8_exact prec emax Hp Hpe _ _ FM2 HM2). unfold clampZ. lia.
+Qed.
+
+(* a zero scale (all-zero row, or absmax/qmax underflowing to zero): the quotient is NaN or an
+   infinity, nan_to_num makes it finite, and the dequantized value is a zero: finite, whatever x *)
+Theorem qint8_zero_scale_finite (x : fl) (ss : bool) :
+  is_finite x = true ->
+  is_finite (qdeq x (B754_zero ss)) = true /\ B2R (qdeq x (B754_zero ss)) = 0.
+Proof.
+  intros Fx. unfold qdeq, symdq. fold (qcode x (B754_zero ss)). rewrite qcode_unfold.
+  assert (FQ : is_finite (nan_to_num prec emax Hp Hpe (Bdiv mode_NE x (B754_zero ss))) = true).
+  { destruct fmaxfloat_value as [_ HMf].
+    destruct x as [sx| | |sx mx ex Hx]; try discriminate Fx; cbn [Bdiv nan_to_num];
+      try reflexivity; destruct (xorb sx ss); rewrite ?is_finite_Bopp; exact HMf. }
+  rewrite (clamp_chain _ FQ).
+  set (k := clampZ (-128) 127 _).
+  assert (Hk : (-128 <= k <= 127)%Z) by (unfold k, clampZ; lia).
+  pose proof (fof_Z_exact prec emax Hp Hpe Hprec8 Hemax9 k ltac:(lia)) as [Hck Fck].
+  cbn [n_mul NumFl].
+  pose proof (Bmult_correct prec emax Hp Hpe mode_NE (B754_zero ss) (fof_Z prec emax Hp Hpe k)) as HM.
+  cbn [round_mode BinarySingleNaN.B2R] in HM. rewrite Rmult_0_l, round_0 in HM by apply valid_rnd_N.
+  rewrite Rabs_R0, Rlt_bool_true in HM by apply bpow_gt_0.
+  destruct HM as (HMv & HMf & _). rewrite Fck in HMf. split; [exact HMf | exact HMv].
+Qed.
+
 Theorem qint8_code_float (x s : fl) :
   is_finite x = true -> is_finite s = true -> 0 < B2R s ->
   exists k : Z, (-128 <= k <= 127)%Z /\ qcode x s = fof_Z prec emax Hp Hpe k /\
@@ -251,6 +291,21 @@ Proof.
   replace (rnd (B2R s * IZR k) - B2R x)
     with ((rnd (B2R s * IZR k) - B2R s * IZR k) + (B2R s * IZR k - B2R x)) by ring.
   eapply Rle_trans; [apply Rabs_triang|]. lra.
+Qed.
+
+(* C16 for qint8: any finite element and any finite non-negative scale (zero included) with a
+   representable grid dequantize to a finite value *)
+Theorem qint8_finite (x s : fl) :
+  is_finite x = true -> is_finite s = true -> 0 <= B2R s -> 128 * B2R s <= Fmax ->
+  is_finite (qdeq x s) = true.
+Proof.
+  intros Fx Fs Sp Hgrid. destruct (Rle_lt_or_eq_dec 0 (B2R s) Sp) as [Hpos|Hz].
+  - destruct (qint8_nearest_float x s Fx Fs Hpos Hgrid) as (k & _ & _ & _ & _ & Hf & _). exact Hf.
+  - destruct s as [ss| | |ss ms es Hs]; try discriminate Fs.
+    + exact (proj1 (qint8_zero_scale_finite x ss Fx)).
+    + exfalso. cbn [BinarySingleNaN.B2R] in Hz. destruct ss; cbn [cond_Zopp Z.opp] in Hz.
+      * pose proof (F2R_lt_0 radix2 (Float radix2 (Z.neg ms) es) eq_refl). lra.
+      * pose proof (F2R_gt_0 radix2 (Float radix2 (Z.pos ms) es) eq_refl). lra.
 Qed.
 
 End C01F.
